@@ -5,9 +5,11 @@ import hashlib
 import io
 import itertools
 import json
+import functools
 import multiprocessing
 import os
 import time
+import unicodedata
 
 import fw
 
@@ -31,7 +33,11 @@ ASSUMPTIONS = [
     'lowering of this code base, arraySlice range errors); the link model <-> BareScript source is correspondence-strength: the real '
     'script is run through the real interpreter (exhaustively for short inputs) and compared with the model',
     'CPython re: regexSplit with the pattern \\r?\\n is modelled as "cut at every LF, a CR directly before it belongs to the separator"',
-    'lines are compared with == on strings (value_compare on two str) = code point equality of Lean String',
+    'lines are compared with == on strings (value_compare on two str) = code point equality of Lean String (tied by the diff-twins stream: '
+    'lines equal up to normalisation form / case / invisible affixes / numeric reading, all planes; surrogate code points cannot reach the '
+    'driver and run with the oracle only)',
+    'the result of diffLines does not depend on the script that includes the library and calls it: the model has no notion of a caller; the '
+    'diff-hosts stream runs the real interpreter on a family of caller scripts against the same model function',
     'Gen/Includes records what parse_script / validate_script / lint_script of the working tree report for each include/*.bare; the '
     'decided theorem is about that table (regenerated on every run), not about a Lean model of the linter',
 ]
@@ -78,6 +84,123 @@ return d'''
 
 
 # ---------------------------------------------------------------------------------------------------------------------
+# the HOST family: every way a script can load the shipped library and reach diffLines
+# ---------------------------------------------------------------------------------------------------------------------
+# The property speaks about "diffLines (include <diff.bare>)" - whatever the including script looks like.  A host is
+#   form  (what the include statement names)  x  place (where the include statement stands)  x  call (how diffLines is reached);
+# the script gets the two inputs as the globals l and r and returns the result of diffLines(l, r).
+
+# a user library of one file that itself includes the shipped one (nested include; served by Runner._fetch_with_wrapper)
+WRAPPER_BARE = '''\
+wrapperLoads = if(systemGlobalGet('wrapperLoads') != null, wrapperLoads, 0) + 1
+include <diff.bare>
+'''
+
+# the names the library owns (its globals) and the names diffLines uses as locals: a caller may use any of them for its own purposes
+LIB_GLOBALS = ('diffSentinel', 'diffTypes', 'diffRegexLineSplit')
+LIB_LOCALS = ('diffs', 'leftLines', 'leftPart', 'rightLines', 'rightPart', 'ixLeft', 'ixRight', 'leftLength', 'rightLength',
+              'identicalLines', 'foundMatch', 'ixLeftTmp', 'ixRightTmp')
+JUNK = ("arrayNew('junk')", '7', 'true', "'junk'", "objectNew('type', 'Add')")
+
+INC_FORMS = {
+    'system': ['include <diff.bare>'],
+    'system-twice': ['include <diff.bare>', 'include <diff.bare>'],
+    'path': ["include 'diff.bare'"],                                    # the shipped file named by its path (urlFn: relative to the script)
+    'wrapper': ["include 'wrapper.bare'"],                              # through a user library that includes it
+    'wrapper+system': ["include 'wrapper.bare'", 'include <diff.bare>'],
+}
+
+
+def _ind(lines, n=1):
+    return ['    ' * n + ln for ln in lines]
+
+
+def _junk_assignments(names):
+    return ['%s = %s' % (name, JUNK[i % len(JUNK)]) for i, name in enumerate(names)]
+
+
+def _place(place, inc, defs, main):
+    """-> the caller's lines: the include lines `inc` standing at `place`, the caller's definitions `defs`, its main part `main`."""
+    if place == 'top':
+        return inc + defs + main
+    if place == 'late':            # the calling functions are defined before the library is loaded
+        return defs + ['hostReady = 1'] + inc + main
+    if place == 'if':
+        return ['if l != 0:'] + _ind(inc) + ['endif'] + defs + main
+    if place == 'else':
+        return ['if l == 0:', '    hostNope = 1', 'else:'] + _ind(inc) + ['endif'] + defs + main
+    if place == 'while':           # the include statement is executed twice (second time: the library's own sentinel returns)
+        return ['hostK = 0', 'while hostK < 2:'] + _ind(inc) + ['    hostK = hostK + 1', 'endwhile'] + defs + main
+    if place == 'for':
+        return ['for hostPart in arrayNew(1, 2):'] + _ind(inc) + ['endfor'] + defs + main
+    if place == 'loader':          # a function that loads the libraries
+        return ['function hostLoad():'] + _ind(inc) + ['endfunction', 'hostLoad()'] + defs + main
+    if place == 'loader-locals':   # ... that has parameters and locals named like the library's own names
+        return ['function hostLoad(left, right, diffs):'] + _ind(_junk_assignments(LIB_GLOBALS[1:]) + inc + ['return diffTypes']) + \
+               ['endfunction', "hostLoaded = hostLoad('p', 'q')"] + defs + main
+    if place == 'loader-nested':   # ... called by another function, twice
+        return ['function hostLoad():'] + _ind(inc) + ['endfunction', 'function hostBoot(n):', '    if n > 0:', '        hostLoad()',
+                                                        '        hostBoot(n - 1)', '    endif', 'endfunction', 'hostBoot(2)'] + defs + main
+    raise ValueError(place)
+
+
+PLACES = ('top', 'late', 'if', 'else', 'while', 'for', 'loader', 'loader-locals', 'loader-nested')
+
+
+def _call(call, inner):
+    """-> (definitions, main part) of a caller that returns diffLines(l, r); `inner`: include lines standing INSIDE the calling
+    function (or None when this call style has no function of its own)."""
+    inner = inner or []
+    if call == 'plain':
+        return [], ['return diffLines(l, r)']
+    if call == 'fn':
+        return ['function hostGo(a, b):'] + _ind(inner + ['return diffLines(a, b)']) + ['endfunction'], ['return hostGo(l, r)']
+    if call == 'fn-shadow':        # the caller's parameters and locals are named like the library's globals and diffLines' locals
+        return ['function hostGo(left, right):'] + _ind(_junk_assignments(LIB_GLOBALS[1:] + LIB_LOCALS) + inner +
+                                                        ['hostOut = diffLines(left, right)', 'return hostOut']) + ['endfunction'], \
+               ['return hostGo(l, r)']
+    if call == 'fn-crossed':       # parameter names crossed over
+        return ['function hostGo(right, left):'] + _ind(inner + ['for rightPart in arrayNew(1):', '    leftLines = diffLines(right, left)',
+                                                                 'endfor', 'return leftLines']) + ['endfunction'], ['return hostGo(l, r)']
+    if call == 'fn-deep':          # the call is three function calls deep, each level with locals of its own
+        return ['function hostGo(a, b, depth):'] + _ind(inner + ['ixLeft = depth', 'if depth > 0:', '    return hostGo(a, b, depth - 1)',
+                                                                 'endif', 'return diffLines(a, b)']) + ['endfunction'], \
+               ['return hostGo(l, r, 2)']
+    if call == 'globals-junk':     # globals named like diffLines' locals hold junk
+        return [], _junk_assignments(LIB_LOCALS + ('left', 'right')) + ['return diffLines(l, r)']
+    if call == 'twice':            # earlier calls (other arguments, result modified afterwards) must leave no trace
+        return [], ['hostFirst = diffLines(r, l)', "arrayPush(hostFirst, 'junk')", 'hostSame = diffLines(l, l)',
+                    'hostSecond = diffLines(l, r)', 'hostThird = diffLines(r, r)', 'return hostSecond']
+    if call == 'value':            # the function taken as a value
+        return [], ["hostFn = systemGlobalGet('diffLines')", 'return hostFn(l, r)']
+    if call == 'jumps':            # control flow of the caller's own, jumps taken before the call (as SCRIPT_EMBEDDED)
+        return ['function hostPick(m):', "    if m == 'x':", '        return 1', '    endif', '    return 2', 'endfunction'], \
+               ['hostN = 0', 'while hostN < 2:', '    hostN = hostN + 1', 'endwhile', "if hostPick('y') == 1:", '    hostD = 0', 'else:',
+                '    for hostUnused in arrayNew(1, 2):', '        hostD = diffLines(l, r)', '    endfor', 'endif', 'return hostD']
+    raise ValueError(call)
+
+
+CALLS = ('plain', 'fn', 'fn-shadow', 'fn-crossed', 'fn-deep', 'globals-junk', 'twice', 'value', 'jumps')
+FN_CALLS = ('fn', 'fn-shadow', 'fn-crossed', 'fn-deep')
+
+
+def build_hosts():
+    """-> [(name, script text)]: `system` form in every place with every call style (and inside every calling function); the other
+    forms in every place with the two basic call styles."""
+    hosts = []
+    for form, inc in INC_FORMS.items():
+        calls = CALLS if form == 'system' else ('plain', 'fn')
+        for place in PLACES:
+            for call in calls:
+                defs, main = _call(call, None)
+                hosts.append(('%s/%s/%s' % (form, place, call), '\n'.join(_place(place, inc, defs, main))))
+        for call in (FN_CALLS if form == 'system' else ('fn', 'fn-shadow')):
+            defs, main = _call(call, inc)
+            hosts.append(('%s/in-caller/%s' % (form, call), '\n'.join(defs + main)))
+    return hosts
+
+
+# ---------------------------------------------------------------------------------------------------------------------
 # running the REAL script through the REAL interpreter
 # ---------------------------------------------------------------------------------------------------------------------
 
@@ -93,6 +216,7 @@ class Runner:
         self.emb = None
         self.call = None
         self.globals = None
+        self.hosts = {}
         self.overruns = 0
 
     def _options(self, globals_, limit):
@@ -127,6 +251,30 @@ class Runner:
                                                                              2 * statement_budget(left, right) + 100)))
         except Exception as exc:  # pylint: disable=broad-except
             return self._error(exc)
+
+    def host(self, left, right, script):
+        """diffLines reached through a caller script of the host family (HOSTS): the library is fetched, parsed and executed
+        afresh, wherever the include statement of that caller stands.  fetchFn = the CLI fetcher, which also serves the
+        one-file user library `wrapper.bare`; urlFn as the CLI sets it for a script file standing next to the shipped includes."""
+        if self.overruns >= MAX_OVERRUNS:
+            return SKIPPED
+        try:
+            if script not in self.hosts:
+                self.hosts[script] = self.parser.parse_script(script)
+            opts = self._options({'l': clone(left), 'r': clone(right)}, 3 * statement_budget(left, right) + 1000)
+            opts['fetchFn'] = self._fetch_with_wrapper
+            opts['urlFn'] = functools.partial(fw.impl()['options'].url_file_relative, os.path.join(self.include_dir(), 'main.bare'))
+            return canon(self.runtime.execute_script(self.hosts[script], opts))
+        except Exception as exc:  # pylint: disable=broad-except
+            return self._error(exc)
+
+    def include_dir(self):
+        return os.path.join(os.path.dirname(os.path.abspath(self.bare.__file__)), 'include')
+
+    def _fetch_with_wrapper(self, request):
+        if request['url'].replace(os.sep, '/').endswith('/wrapper.bare') or request['url'] == 'wrapper.bare':
+            return WRAPPER_BARE
+        return self.bare._fetch_include(request)  # pylint: disable=protected-access
 
     def shared(self, left, right):
         if self.overruns >= MAX_OVERRUNS:
@@ -199,17 +347,20 @@ def oracle(left, right, diffs):
     return None
 
 
-def check_case(ctx, stream, runner_fn, case, model, mode):
-    """One case: implementation vs model, and the oracle on the implementation. `model` may be None (no driver)."""
+def check_case(ctx, stream, runner_fn, case, model, mode, **extra):
+    """One case: implementation vs model, and the oracle on the implementation. `model` may be None (no driver).
+    `extra`: what replay needs besides the two inputs and the mode (the caller script of a host)."""
     left, right = case
     impl = runner_fn(left, right)
     if impl is SKIPPED:
         return impl
+    inp = {'left': left, 'right': right, 'mode': mode}
+    inp.update(extra)
     if model is not None:
-        ctx.compare(stream, {'left': left, 'right': right, 'mode': mode}, impl, model)
+        ctx.compare(stream, inp, impl, model)
     bad = oracle(left, right, impl)
     if bad is not None:
-        ctx.witness(bad[0], {'left': left, 'right': right, 'mode': mode}, bad[1], bad[2])
+        ctx.witness(bad[0], inp, bad[1], bad[2])
     return impl
 
 
@@ -319,6 +470,176 @@ def input_cases(ctx):
             def raw():
                 return ''.join(rng.choice(['a', 'b', 'c', '\n', '\r\n', '\r', '']) for _ in range(rng.randint(0, 24)))
             yield 'rawtext', raw(), raw()
+
+
+# ---------------------------------------------------------------------------------------------------------------------
+# TWIN lines: different strings that some tempting canonicalisation would identify
+# ---------------------------------------------------------------------------------------------------------------------
+# "Exactly the left lines / exactly the right lines" means code point for code point.  A twin class is a set of pairwise DIFFERENT
+# strings that are "the same text" under a Unicode normalisation form, a case mapping, trimming / invisible characters, a numeric
+# reading or a length limit.  Words come from every plane: a fixed list of notorious ones plus random words over all characters that
+# have a decomposition, cased letters of bicameral scripts (astral ones included), combining marks, private-use, noncharacters, controls.
+
+TWIN_WORDS = [
+    'caf\u00e9', '\u00c5ngstr\u00f6m', '\u212b', '\u2126', '\u212a', 'ng\u01b0\u1eddi Vi\u1ec7t', 'a\u0323\u0301', 'q\u0307\u0323', '\u1e9b\u0323',
+    '\ufb01n', '\u2460', '\uff76\uff9e', '\u304c', '\ud55c\uae00', '\u01c6', 'Stra\u00dfe', '\u0130stanbul', 'I\u0131i', '\u03c3\u03bf\u03c6\u03cc\u03c2',
+    '\u0390', '\u1f88', '\u0958', '\u0f73', '\u2adc', '\U0001d15e', '\U0001d400', '\U0002f800', '\U000110ab', '\U00010400\U00010428', '\U0001e900',
+    'x\u00b2', '\u00bd', '\u2025', '\u3000a', '\u0644\u0627', '\ufdfa', 'Line', 'line 1', '1', '10', '0.5', '-0', '1e3', 'true', 'null', 'a', '',
+]
+NORMAL_FORMS = ('NFC', 'NFD', 'NFKC', 'NFKD')
+CASE_MAPS = (str.lower, str.upper, str.casefold, str.title, str.swapcase, str.capitalize)
+# affixes an editor, a terminal or a "trim" would not show: blanks, no-break / zero-width / BOM / soft hyphen / NUL, and the characters
+# that str.splitlines() - but not the library's \r?\n - takes for line ends
+AFFIXES = (' ', '\t', '\u00a0', '\u3000', '\u200b', '\u200d', '\ufeff', '\u00ad', '\x00', '\x0b', '\x0c', '\x1c', '\x1e', '\x85', '\u2028', '\u2029', '\r ')
+TWIN_KINDS = ('nf', 'case', 'affix', 'number', 'length')
+
+
+def line_ok(s):
+    """usable as one line in every input shape: no LF, no CR at the end (it would join the LF that follows), no surrogate code points"""
+    return '\n' not in s and not s.endswith('\r') and not any('\ud800' <= ch <= '\udfff' for ch in s)
+
+
+def twin_class(word, kind):
+    """-> pairwise different spellings (word first) that the canonicalisation `kind` would identify"""
+    out = [word]
+
+    def add(x):
+        if x not in out and line_ok(x):
+            out.append(x)
+    if kind == 'nf':
+        for form in NORMAL_FORMS:
+            add(unicodedata.normalize(form, word))
+        # canonically equivalent orders of two combining marks of different classes
+        add(unicodedata.normalize('NFD', word) + '\u0323\u0301')
+        add(unicodedata.normalize('NFD', word) + '\u0301\u0323')
+    elif kind == 'case':
+        for fn in CASE_MAPS:
+            add(fn(word))
+            add(fn(unicodedata.normalize('NFD', word)))
+    elif kind == 'affix':
+        for i, fix in enumerate(AFFIXES):
+            add(word + fix)
+            if i % 2:
+                add(fix + word)
+    elif kind == 'number':
+        for x in (word + '.0', '0' + word, '+' + word, word + 'e0', ' ' + word, word + ' ', word.translate({48 + d: 0xff10 + d for d in range(10)}),
+                  word.translate({48 + d: 0x0660 + d for d in range(10)}), word.replace('.', ','), word.lstrip('-')):
+            add(x)
+    elif kind == 'length':      # a prefix relation, and long lines that differ only at the very end / in the middle
+        long = (word or 'x') * 40
+        for x in (word + word[-1:], word[:-1], long + 'a', long + 'b', long, long + 'a' + long, long + 'b' + long, word + '\U0010ffff', word + '\uffff'):
+            add(x)
+    return out
+
+
+@functools.lru_cache(maxsize=None)
+def unicode_tables():
+    """(characters that have a canonical or compatibility decomposition, cased letters outside ASCII, combining marks) of this
+    Python's Unicode database, over all 17 planes"""
+    decomposable, cased, marks = [], [], []
+    for cp in range(0x80, 0x110000):
+        if 0xd800 <= cp <= 0xdfff:
+            continue
+        ch = chr(cp)
+        if unicodedata.decomposition(ch):
+            decomposable.append(ch)
+        if unicodedata.combining(ch):
+            marks.append(ch)
+        elif ch.lower() != ch or ch.upper() != ch:
+            cased.append(ch)
+    # Hangul syllables decompose algorithmically (no decomposition field)
+    decomposable.extend(chr(cp) for cp in range(0xac00, 0xd7a4, 37))
+    return decomposable, cased, marks
+
+
+ODD_CHARS = ['\x00', '\x01', '\x1f', '\x7f', '\x85', '\u2028', '\ue000', '\uf8ff', '\ufffd', '\ufffe', '\uffff', '\U0001f600', '\U0001fffe',
+             '\U000e0001', '\U000f0000', '\U000ffffd', '\U00100000', '\U0010fffd', '\U0010ffff', '\r', '"', '\\']
+
+
+def random_word(rng):
+    """a short word over all planes: decomposable characters, cased letters, base letter + combining marks, odd characters"""
+    decomposable, cased, marks = unicode_tables()
+    out = []
+    for _ in range(rng.randint(1, 4)):
+        k = rng.randint(0, 5)
+        if k == 0:
+            out.append(rng.choice(decomposable))
+        elif k == 1:
+            out.append(rng.choice(cased))
+        elif k == 2:
+            out.append(rng.choice('aeinoAEINO') + ''.join(rng.choice(marks) for _ in range(rng.randint(1, 2))))
+        elif k == 3:
+            out.append(rng.choice(ODD_CHARS))
+        elif k == 4:
+            out.append(chr(rng.choice([rng.randint(0xa0, 0xd7ff), rng.randint(0xe000, 0xffff), rng.randint(0x10000, 0x10ffff)])))
+        else:
+            out.append(rng.choice('abcXYZ019 -_'))
+    word = ''.join(out)
+    return word if line_ok(word) else word + '.'
+
+
+def twin_vocabulary(rng, kind, n_classes):
+    """-> n_classes twin classes of one kind (each with >= 2 spellings where the kind applies to the word)"""
+    classes = []
+    tries = 0
+    while len(classes) < n_classes and tries < 40:
+        tries += 1
+        word = rng.choice(TWIN_WORDS) if rng.random() < 0.4 else random_word(rng)
+        if kind == 'number' and not any(ch.isdigit() for ch in word):
+            word = rng.choice(['1', '10', '0.5', '-0', '1e3', '7', '42', '3.25'])
+        cls = twin_class(word, kind)
+        if len(cls) >= 2 or tries > 30:
+            classes.append(cls[:rng.choice([2, 3, 6, 30])])
+    return classes
+
+
+def twin_random_cases(ctx, count):
+    """random pairs whose aligned lines are twins: a base sequence of classes and an edited copy, every occurrence spelled independently"""
+    rng = ctx.rng('diff-twins')
+    for _ in range(count):
+        kind = rng.choice(TWIN_KINDS)
+        classes = twin_vocabulary(rng, kind, rng.randint(1, 4))
+        ids = list(range(len(classes)))
+        base, other = edit_pair(rng, ids, rng.choice([2, 4, 8, 16]))
+        if rng.random() < 0.3:
+            other = list(base)            # same classes throughout: only the spellings differ
+        left = [rng.choice(classes[i]) for i in base]
+        right = [rng.choice(classes[i]) for i in other]
+        shape = rng.randint(0, 3)
+        if shape == 0:
+            yield kind, 'lines', left, right
+        elif shape == 1:
+            yield kind, 'text', as_text(rng, left or ['']), as_text(rng, right or [''])
+        elif shape == 2:
+            yield kind, 'chunks', as_chunks(rng, left), as_chunks(rng, right)
+        else:
+            yield kind, 'mixed', as_text(rng, left or ['']), as_chunks(rng, right)
+
+
+def twin_sweep_cases(ctx):
+    """deterministic: every notorious word (plus some random ones) x every kind x every spelling y of its class against the word x itself -
+    alone, between common lines, doubled, and as texts"""
+    rng = ctx.rng('diff-twins-sweep')
+    words = TWIN_WORDS + [random_word(rng) for _ in range(ctx.scale(40, 400))]
+    cap = ctx.scale(6, 40)
+    for idx, word in enumerate(words):
+        for kind in TWIN_KINDS:
+            if kind == 'number' and not (word and word[0].isdigit()):
+                continue
+            cls = twin_class(word, kind)
+            stride = -(-(len(cls) - 1) // cap) or 1         # more spellings than the cap: every stride-th, the offset moving with the word
+            for y in cls[1:][idx % stride::stride]:
+                x = word if line_ok(word) else cls[0] + '.'
+                yield kind, 'lines', [x], [y]
+                yield kind, 'lines', ['k', x, 'm'], ['k', y, 'm']
+                yield kind, 'lines', [x, x, y], [x, y, y]
+                yield kind, 'text', x + '\n' + y + '\r\n' + x, y + '\r\n' + y + '\n' + x
+                yield kind, 'mixed', [y + '\n' + x], x + '\n' + x
+
+
+# surrogate code points cannot travel to the Lean driver (JSON in UTF-8): these cases run with the oracle only
+SURROGATE_CASES = [(['\ud800'], ['\udc00']), (['a\ud800'], ['a']), (['\udfff', 'a'], ['\ud800', 'a']), ('\ud83d\n\ude00', '\ude00\n\ud83d'),
+                   (['\ud800', '\U00010000'], ['\U00010000', '\ud800'])]
 
 
 def size_tag(left, right):
@@ -449,6 +770,92 @@ def stream_cli_path(ctx, runner, kmax):
     st.exhaustive = 'skipped' not in st.hist
 
 
+def blocks_tag(impl):
+    return 'blocks=%s' % (min(len(impl), 9) if isinstance(impl, list) else 'error')
+
+
+def stream_twins(ctx, runner):
+    st = ctx.stream('diff-twins', 'lines that are DIFFERENT strings but equal under a Unicode normalisation form (NFC/NFD/NFKC/NFKD, mark '
+                                  'order), a case mapping, blank / invisible / line-separator-like affixes, a numeric reading or a length limit: '
+                                  'a deterministic sweep (every notorious word and random words over all 17 planes x every kind x every '
+                                  'spelling against the word: alone, between common lines, doubled, as texts; shared globals) and random '
+                                  'edited pairs whose occurrences are spelled independently (lines / texts / chunks / mixed; fresh include); '
+                                  'model + reconstruction oracle; lone-surrogate lines with the oracle only; non-trivial = the line lists differ')
+    sweep = [(k, sh, l, r, 'shared') for k, sh, l, r in twin_sweep_cases(ctx)]
+    rand = [(k, sh, l, r, 'fresh') for k, sh, l, r in twin_random_cases(ctx, ctx.scale(1200, 8000))]
+    cases = sweep + rand
+    models = [None] * len(cases)
+    if ctx.driver is not None:
+        models = [model_out(x) for x in ctx.driver.batch([{'op': 'diff', 'left': l, 'right': r} for _, _, l, r, _ in cases])]
+    cases += [('surrogate', 'lines' if isinstance(l, list) else 'text', l, r, 'fresh') for l, r in SURROGATE_CASES]
+    models += [None] * len(SURROGATE_CASES)
+    for (kind, shape, left, right, mode), model in zip(cases, models):
+        impl = check_case(ctx, 'diff-twins', runner.shared if mode == 'shared' else runner.fresh, (left, right), model, mode)
+        if impl is SKIPPED:
+            st.case([left, right], nontrivial=False, tags=['skipped'])
+            continue
+        want_l, want_r = ref_lines(left), ref_lines(right)
+        planes = {ord(ch) >> 16 for part in (left if isinstance(left, list) else [left]) for ch in part}
+        st.case([left, right], nontrivial=want_l != want_r,
+                tags=['kind=' + kind, shape, mode, blocks_tag(impl), 'plane>=1' if max(planes, default=0) >= 1 else 'plane=0'])
+    st.exhaustive = False
+
+
+HOST_PROBES = [
+    (['a', 'b', 'c'], ['a', 'c', 'd']), ('a\r\nb\r\nc', 'a\nb\n'), ([], ['a']), (['a\nb', 'c'], 'a\nc'), ('same\ntext', 'same\ntext'),
+    (['caf\u00e9', 'x'], ['cafe\u0301', 'x']), (['b', 'a', 'a'], ['a', 'b', 'a']), ('', []),
+]
+
+
+def host_pool(ctx):
+    """the rotating cases of the host stream: random inputs of every shape (diff-inputs generator) interleaved with twin pairs"""
+    a = (c for c in input_cases(ctx) if c[0] != 'corpus')
+    b = twin_random_cases(ctx, 10 ** 9)
+    while True:
+        for left, right in (next(a)[1:], next(b)[2:]):
+            if len(ref_lines(left)) + len(ref_lines(right)) <= 24:      # every host run parses the library again: keep the diff itself short
+                yield left, right
+
+
+def corpus_pairs():
+    path = os.path.join(fw.VERIF, 'harness', 'corpus', 'C20.jsonl')
+    with open(path, encoding='utf-8') as fh:
+        return [(row['left'], row['right']) for row in (json.loads(ln) for ln in fh if ln.strip())]
+
+
+def stream_hosts(ctx, runner):
+    hosts = build_hosts()
+    st = ctx.stream('diff-hosts', '%d caller scripts = what the include statement names (<diff.bare>, twice, the shipped file by path, a '
+                                  'user library that includes it, both) x where it stands (top level, after the callers\' definitions, in an if / '
+                                  'else / while / for body, in a loader function - plain, with parameters and locals named like the library\'s '
+                                  'names, nested and called twice -, inside the calling function) x how diffLines is reached (top level, from a '
+                                  'function, with parameters / locals / globals named like the library\'s globals and diffLines\' locals, three '
+                                  'calls deep, after other calls, as a function value, after jumps of the caller): every host on fixed probes%s '
+                                  'and on its share of random inputs and twin pairs; model + reconstruction oracle; non-trivial = the line '
+                                  'lists differ' % (len(hosts), '' if ctx.quick else ' and the corpus'))
+    fixed = HOST_PROBES if ctx.quick else HOST_PROBES + corpus_pairs()
+    pool = host_pool(ctx)
+    work = []
+    for name, text in hosts:
+        for left, right in fixed:
+            work.append((name, text, left, right))
+        for _ in range(ctx.scale(5, 60)):
+            left, right = next(pool)
+            work.append((name, text, left, right))
+    models = [None] * len(work)
+    if ctx.driver is not None:
+        models = [model_out(x) for x in ctx.driver.batch([{'op': 'diff', 'left': l, 'right': r} for _, _, l, r in work])]
+    for (name, text, left, right), model in zip(work, models):
+        impl = check_case(ctx, 'diff-hosts', lambda l, r, text=text: runner.host(l, r, text), (left, right), model, 'host', host=name, script=text)
+        if impl is SKIPPED:
+            st.case([name, left, right], nontrivial=False, tags=['skipped'])
+            continue
+        form, place, call = name.split('/')
+        st.case([name, left, right], nontrivial=ref_lines(left) != ref_lines(right),
+                tags=['form=' + form, 'place=' + place, 'call=' + call, blocks_tag(impl)])
+    st.exhaustive = False
+
+
 def include_facts():
     """What the implementation says about each shipped include script. -> [{name, sha256, parses, statements, validates, lint}]"""
     m = fw.impl()
@@ -518,6 +925,8 @@ def stream_includes(ctx):
 def streams(ctx):
     runner = Runner()
     stream_inputs(ctx, runner)
+    stream_twins(ctx, runner)
+    stream_hosts(ctx, runner)
     stream_cli_path(ctx, runner, ctx.scale(3, 4))
     cpus = os.cpu_count() or 1
     workers = 1 if ctx.quick else int(os.environ.get('VERIF_C20_WORKERS', max(1, min(8, cpus // 2))))
@@ -551,11 +960,30 @@ def search(ctx):
             ctx.witness('include-parses-validates-lintclean', {'include': row['name']},
                         {'parses': True, 'validates': True, 'lint': [], 'cli_static': 0}, row)
             return
+    def try_host(left, right, name, text):
+        impl = runner.host(left, right, text)
+        bad = None if impl is SKIPPED else oracle(left, right, impl)
+        if bad is not None:
+            ctx.witness(bad[0], {'left': left, 'right': right, 'mode': 'host', 'host': name, 'script': text}, bad[1], bad[2])
+            return True
+        return False
+
     for d in ctx.disagreements:
         if d and isinstance(d.get('case'), dict) and 'left' in d['case']:
+            if 'script' in d['case'] and try_host(d['case']['left'], d['case']['right'], d['case'].get('host'), d['case']['script']):
+                return
             for fn, mode in ((runner.fresh, 'fresh'), (runner.shared, 'shared'), (runner.embedded, 'embedded')):
                 if try_case(d['case']['left'], d['case']['right'], fn, mode):
                     return
+    for name, text in build_hosts():
+        for left, right in HOST_PROBES + corpus_pairs():
+            if try_host(left, right, name, text):
+                return
+    for _, _, left, right in itertools.chain(twin_sweep_cases(ctx), twin_random_cases(ctx, ctx.scale(3000, 20000))):
+        if time.time() > budget:
+            break
+        if try_case(left, right, runner.shared, 'shared'):
+            return
     for _, left, right in input_cases(ctx):
         if time.time() > budget:
             break
@@ -584,6 +1012,8 @@ def replay(witness):
         rows = [r for r in include_facts() if r['name'] == inp['include']]
         return not rows or include_bad(rows[0])
     runner = Runner()
+    if inp.get('mode') == 'host':
+        return oracle(inp['left'], inp['right'], runner.host(inp['left'], inp['right'], inp['script'])) is not None
     fn = {'shared': runner.shared, 'embedded': runner.embedded}.get(inp.get('mode'), runner.fresh)
     return oracle(inp['left'], inp['right'], fn(inp['left'], inp['right'])) is not None
 
@@ -598,5 +1028,7 @@ LEVEL_TEXT = ('Theorems for line lists of any length over any line type: the fun
 LEVEL_NOTE = ('Proof level holds for the Lean model. The link model <-> diff.bare is correspondence-strength: the real script is executed by the '
               'real interpreter with the CLI include fetcher and compared with the model exhaustively on all pairs of line lists of length '
               '<= 4 (quick) / <= 6 (thorough, <= 5 when fewer than 4 worker processes are available) over a 3-letter alphabet, plus random '
-              'pairs up to 40 lines, LF/CRLF texts and chunked arrays; the reconstruction oracle runs on every implementation output. The '
+              'pairs up to 40 lines, LF/CRLF texts and chunked arrays, twin lines (different strings equal under a Unicode normalisation form, '
+              'a case mapping, invisible affixes, a numeric reading or a length limit; words from all 17 planes) and 165 caller scripts '
+              '(include form x place of the include statement x way of calling); the reconstruction oracle runs on every implementation output. The '
               'include facts are those reported by parse_script/validate_script/lint_script of the working tree (no Lean model of the linter).')
